@@ -7,5 +7,6 @@ CONSTANTS
   BSet = {1}
   Costs = {1}
   MaxCalls = 0
+  Rounding = TRUE
 INVARIANTS NotAccepted Observed
 CHECK_DEADLOCK FALSE
